@@ -11,6 +11,7 @@ import (
 	"github.com/refraction-networking/conjure/pkg/zzverif/vconn"
 	"github.com/refraction-networking/conjure/pkg/zzverif/vmsg"
 	"github.com/refraction-networking/conjure/pkg/zzverif/vsched"
+	"github.com/refraction-networking/conjure/pkg/zzverif/vsync"
 )
 
 // hbloss family: hbloss:<maxK>:p<bound>
@@ -218,6 +219,93 @@ func enumFlow(fam string, parts []string) []*instance {
 		}
 	}
 	return out
+}
+
+// flowmulti family: flowmulti:<stack>:<k>:p<bound>. The connection already buffers one maximum write; k more writers
+// (goroutines sharing the connection, as a caller may) each issue one maximum write at the same moment, the network
+// drains whenever scheduled. The flow-control test and the hand-over to the stream are one step with respect to other
+// writers, so the bound is the single writer's: limit plus one maximum write.
+func enumFlowMulti(fam string, parts []string) []*instance {
+	stack := parts[1]
+	k, _ := strconv.Atoi(parts[2])
+	pb := bound(parts)
+	_, _, limit := dtls.VerifDefaults()
+	half := int(limit / 2)
+	mk := func() *vsched.Scenario {
+		st := &vmsg.Stream{Name: "stream", Max: 1 << 20}
+		under := &vconn.Conn{Name: "dtls"}
+		done := 0
+		var errs []error
+		body := func() {
+			var c interface {
+				Write([]byte) (int, error)
+				Close() error
+			}
+			if stack == "cli" {
+				c, _ = dtls.VerifClientStack(st, under, 10*time.Second, hbPayload, 1<<16)
+			} else {
+				c = dtls.VerifBareSCTPConn(st, under, 1<<16)
+			}
+			if _, err := c.Write(bigBuf[:half]); err != nil {
+				errs = append(errs, err)
+			}
+			vsched.GoNamed("network", func() {
+				for st.WaitBuffered(func() bool { return done == k }) {
+					st.Drain(64 * 1024)
+				}
+			})
+			var wg vsync.WaitGroup
+			for i := 0; i < k; i++ {
+				wg.Add(1)
+				vsched.GoNamed(fmt.Sprintf("writer%d", i), func() {
+					defer wg.Done()
+					if _, err := c.Write(bigBuf[:half]); err != nil {
+						errs = append(errs, err)
+					}
+					done++
+				})
+			}
+			wg.Wait()
+			c.Close()
+		}
+		check := func(x *vsched.Exec) *vsched.Violation {
+			if x.Verdict == vsched.VPanic {
+				return &vsched.Violation{Key: "panic", What: x.Detail}
+			}
+			if done != k {
+				return &vsched.Violation{Key: "writer-stuck", What: fmt.Sprintf("%d of %d concurrent writes returned (%s): %s", done, k, x.Verdict, x.Detail)}
+			}
+			if x.Verdict != vsched.VOK {
+				return &vsched.Violation{Key: "thread-stuck-" + x.Verdict, What: x.Detail}
+			}
+			if len(errs) > 0 {
+				return &vsched.Violation{Key: "write-failed", What: fmt.Sprintf("%v on an open connection", errs[0])}
+			}
+			slack := uint64(0)
+			if stack == "cli" {
+				slack = 64 // keep-alive messages go to the stream next to the data (a few bytes each)
+			}
+			if st.MaxBuffered > limit+limit/2+slack {
+				return &vsched.Violation{Key: "buffered-amount-unbounded:concurrent-writers", What: fmt.Sprintf("buffered amount reached %d with %d concurrent writers (limit %d, largest write %d)", st.MaxBuffered, k, limit, limit/2)}
+			}
+			n := 0
+			for i, l := range st.OutLens {
+				if stack == "cli" && l == len(hbPayload) && bytes.Equal(st.OutHead[i], hbPayload) {
+					continue
+				}
+				if l != half {
+					return &vsched.Violation{Key: "writes-altered", What: fmt.Sprintf("stream received a message of %d bytes", l)}
+				}
+				n++
+			}
+			if n != k+1 {
+				return &vsched.Violation{Key: "writes-altered", What: fmt.Sprintf("stream received %d messages for %d writes", n, k+1)}
+			}
+			return nil
+		}
+		return &vsched.Scenario{Body: body, Check: check, Outcome: func(x *vsched.Exec) string { return fmt.Sprintf("%s max=%dK", x.Verdict, st.MaxBuffered/1024) }}
+	}
+	return []*instance{{name: fam + "#writers=" + parts[2], mk: mk, cfg: vsched.Config{PreemptBound: pb, MaxPoints: 4000}}}
 }
 
 var bigBuf = make([]byte, 1<<18)
